@@ -110,8 +110,12 @@ GroupWidths(form, frame) == [j \in 1..Len(form.groups) |-> Len(GroupTermLabels(f
 Matrix(frame, labels, Val(_, _, _)) == [r \in 1..frame.n |-> [j \in 1..Len(labels) |-> Val(frame, labels[j], r)]]
 
 \* the response: numeric -> its values; categorical -> one indicator per level
+\* subset notation y[l] (form.sub = the level code l): a single 0/1 column, 1 exactly where y = l --
+\* also when l does not occur among the evaluated rows (an all-zero column)
+IsSubset(form) == "sub" \in DOMAIN form /\ form.sub # 0
 RespLabels(form, frame) ==
   IF form.resp = "" THEN <<>>
+  ELSE IF IsSubset(form) THEN << << <<form.resp, form.sub>> >> >>
   ELSE LET c == CompLabels(frame, form.resp, FALSE) IN [j \in 1..Len(c) |-> <<c[j]>>]
 
 (* ---------------- missing values ---------------- *)
